@@ -14,7 +14,7 @@ LEVEL = "fault_enumeration"
 RULE = ("one scenario = (driver, target kind, exchange payload variant, timeout) from the seeded choice stream; "
         "the exchange() is dry-run fault-free to count its m host commands (all indexes for m <= 12, "
         "first/last 5 + 4 seeded otherwise), then re-run in a fresh world once per (index, fault): host link "
-        "{ETIMEDOUT, EIO, ENODEV, None, short read x5, garbled x2 (+ ACK with LEN byte FF), extended x2, NAK, syntax-error frame} on the "
+        "{ETIMEDOUT, EIO, ENODEV, None, short read x5, garbled x2 (+ ACK with LEN byte FF), extended x2, NAK, syntax-error frame, well-framed response with 0/1/2/all-but-one payload bytes} on the "
         "ACK read and on the response read, duplicated ACK, write EIO/ENODEV; chip {status byte / RC-S380 status "
         "word on RF exchange commands, non-zero status on preparatory commands}.  evaluations = faulted "
         "exchange() calls in which the fault fired; distinct by (driver, kind, command code at the index, stage, "
@@ -110,6 +110,9 @@ def fault_plan(sim, drv, cmds, tier, chip_info):
                 plan.append({"at": i, "stage": st, "kind": "garble", "arg": [[3, 255]]})
             plan.append({"at": i, "stage": st, "kind": "extend", "arg": [sim.choose("x.b", 256)]})
             plan.append({"at": i, "stage": st, "kind": "extend", "arg": [sim.choose("x.b", 256) for _ in range(4)]})
+            if st == "rsp":
+                for keep in (0, 1, 2, -1):
+                    plan.append({"at": i, "stage": st, "kind": "payload", "arg": keep})
         if family != "acr122":
             plan.append({"at": i, "stage": "ack", "kind": "dup_ack", "arg": 0})
         plan.append({"at": i, "stage": "write", "kind": "eio", "arg": 0})
